@@ -327,6 +327,51 @@ fn one_case<S: Smp, const N: usize, W: WindowFn<f64, Output = f64>>(st: &mut Str
     st.case(&op, &obs.join(" "), in_domain && l >= bin, evals);
 }
 
+/// the windower's public fields `bin` / `hop` reassigned between two `next()` calls (after `k` chunks): from then on the
+/// chunk schedule and the window follow the NEW values over the frames that remain — "a windower over L frames with bin
+/// size b and hop h …, the first b frames of chunk k … each scaled by the window value for its position"
+fn rebin_case<S: Smp, const N: usize, W: WindowFn<f64, Output = f64>>(st: &mut Stream, rng: &mut Rng, kind: &str, l: usize, bin: usize, hop: usize, k: usize, b2: usize, h2: usize) {
+    let frames: Vec<[S; N]> = (0..l).map(|_| { let mut f = [S::EQUILIBRIUM; N]; for c in 0..N { f[c] = S::random(rng); } f }).collect();
+    let cap = l + 3;
+    let mut op = format!("wdr {} {} {} {}@{}:{}:{} {} {} {}", S::NAME, kind, N, bin, k, b2, h2, hop, cap, l);
+    for f in &frames { for c in 0..N { op.push(' '); op.push_str(&f[c].show()); } }
+    let run = guarded(|| {
+        let mut w: Windower<[S; N], W> = Windower::new(&frames, bin, hop);
+        let mut out: Vec<(Hint, Option<Vec<[S; N]>>)> = Vec::new();
+        for i in 0..cap {
+            if i == k { w.bin = b2; w.hop = h2; }
+            let h = w.size_hint();
+            let b_now = w.bin;
+            match w.next() {
+                Some(chunk) => out.push((h, Some(chunk.take(b_now).collect()))),
+                None => { out.push((h, None)); break; }
+            }
+        }
+        out
+    });
+    let Some(run) = run else { st.oracle_fail("windower panicked", &op, "", "panic"); st.case(&op, "panic", true, 1); return; };
+    let obs: Vec<String> = run.iter().map(|(h, c)| match c {
+        None => format!("{} N", show_hint(*h)),
+        Some(fr) => format!("{} C{}", show_hint(*h), fr.iter().flat_map(|f| f.iter().map(|s| s.show())).collect::<Vec<_>>().join(",")),
+    }).collect();
+    // reference: a plain cursor over the frames
+    let short = if op.len() > 400 { format!("{}…", &op[..400]) } else { op.clone() };
+    let (mut pos, mut b, mut h) = (0usize, bin, hop);
+    let mut want: Vec<Option<Vec<[S; N]>>> = Vec::new();
+    for i in 0..cap {
+        if i == k { b = b2; h = h2; }
+        if pos > l || l - pos < b { want.push(None); break; }
+        let win: Vec<<[S; N] as Frame>::Float> = Window::<<[S; N] as Frame>::Float, W>::new(b).take(b).collect();
+        want.push(Some((0..b).map(|j| frames[pos + j].mul_amp(win[j])).collect()));
+        pos = if h < l - pos { pos + h } else { l + 1 };
+    }
+    let got: Vec<Option<Vec<[S; N]>>> = run.iter().map(|r| r.1.clone()).collect();
+    if got != want { st.oracle_fail("chunks after the public fields bin/hop were reassigned do not follow the new bin size, hop and window", &short, &format!("{} chunks", want.iter().filter(|c| c.is_some()).count()), &format!("{} chunks (or different contents)", got.iter().filter(|c| c.is_some()).count())); } else { st.oracle_ok(want.len() as u64); }
+    st.count("bin_or_hop_reassigned_mid_iteration");
+    let evals: u64 = run.iter().map(|r| 1 + r.1.as_ref().map(|c| c.len() as u64).unwrap_or(0)).sum();
+    st.case(&op, &obs.join(" "), true, evals);
+}
+
 fn all_formats(st: &mut Stream, rng: &mut Rng, l: usize, bin: usize, hop: usize, cap: usize, in_domain: bool, two: bool) {
     macro_rules! go { ($S:ty, $N:expr) => {{
         one_case::<$S, $N, Hann>(st, rng, "hann", l, bin, hop, cap, in_domain);
@@ -343,6 +388,17 @@ fn run_wdr(a: &Args) {
         all_formats(&mut st, &mut rng, l, bin, hop, l + 2, true, (l + bin + hop) % 2 == 1);
     }}}
     st.note("exhaustive part: every (L, b, h) in 0..=40 x 2..=9 x 1..=12 for f64/f32/i16 frames (1 or 2 channels by parity of L+b+h) and both windows, random sample values");
+    // the public fields reassigned mid-iteration
+    for _ in 0..(if a.thorough() { 4000 } else { 400 }) {
+        let l = rng.usize_below(48); let bin = 2 + rng.usize_below(8); let hop = 1 + rng.usize_below(9);
+        let k = rng.usize_below(4); let b2 = 2 + rng.usize_below(9); let h2 = 1 + rng.usize_below(9);
+        match rng.below(4) {
+            0 => rebin_case::<f64, 1, Hann>(&mut st, &mut rng, "hann", l, bin, hop, k, b2, h2),
+            1 => rebin_case::<f32, 2, Hann>(&mut st, &mut rng, "hann", l, bin, hop, k, b2, h2),
+            2 => rebin_case::<i16, 1, Hann>(&mut st, &mut rng, "hann", l, bin, hop, k, b2, h2),
+            _ => rebin_case::<f64, 2, Rectangle>(&mut st, &mut rng, "rect", l, bin, hop, k, b2, h2),
+        }
+    }
     // larger random shapes
     let n_rand = if a.thorough() { 6000 } else { 300 };
     for _ in 0..n_rand {
